@@ -35,7 +35,14 @@ ASSUMPTIONS = [
 
 @st.composite
 def _case(draw, tier):
-    if prob(draw, 0.3):
+    if prob(draw, 0.08):
+        # sibling nested graphs that each bind, inside, an input they expose under one shared name (C05's generator): which
+        # binding a nested graph sees must not depend on runner, schedule or the order of the node list
+        from .c05 import _siblings_case
+
+        sc = draw(_siblings_case())
+        nodes, labels, map_lists = sc["nested"], ["dag", "sibling_bindings"], {}
+    elif prob(draw, 0.3):
         topo = draw(gen.g1_nodes(2, 7))
         labels = ["dag"]
         if len(topo) >= 3 and prob(draw, 0.5):
